@@ -229,7 +229,7 @@ CHECKS["C01"] = dict(
     text="three-layer bounded symbolic verification of the real parser: (R) the token regexes read from the LIVE pyparsing grammar are "
          "translated from CPython's sre IR to z3 - element language == the 118 reference symbols, ordered-choice match length on every 2- "
          "and 3-character window == longest symbol prefix (Co vs CO, non-element capitals start no term), count regex == maximal numeral; "
-         "(Z) the real grammar + parse actions + hydrate/charge code run on ~700 (thorough ~6000) generated formula skeletons whose numerals "
+         "(Z) the real grammar + parse actions + hydrate/charge code run on ~700 (thorough ~42000) generated formula skeletons whose numerals "
          "are placeholders bound to z3 variables, and z3 proves every returned composition entry equal to the value of the generated "
          "derivation tree for ALL numeral values; (X) CrossHair confirms the charge / prefix / suffix / leading-count string helpers",
     note="stubs: chempy.util.parsing.float/.int injected (numerals denote z3 variables; digit lexing is the R and X layers); skeleton "
